@@ -84,6 +84,24 @@ NEEDS = {
  "C18-d": ("schedule.py Reverse: steps kept as a one-shot iterator", "a second traversal of the same Reverse object is empty"),
  "C19-c": ("basic_functions.py beta(x, 0) returns 0", "(wd+rd)/uf < 1: period cm+1 instead of 1"),
  "C19-d": ("periodic_disk_revolve.py: cost table built with params['up']", "uf > 2, >= 2 RAM units, segment longer than the RAM count: Periodic(5,2,uf=3,wd=6,rd=6)"),
+ # ---- round 3 (ids R3-<slot>-a/b): agents got all 19 properties and one region of the code base each
+ "R3-C01-a": ("hrevolve_sequences/basic_functions.py argmin: stops at the first entry above the running minimum (false convexity assumption)", "HRevolve with a disk level, few RAM units, wd+rd well above uf, particular n: HRevolve(13,1,2,wd=5,rd=5) cost 76 vs 75 [C07]"),
+ "R3-C01-b": ("basic_functions.py beta rewritten incrementally: beta(x,0) = x+1", "wd+rd < uf: period cm+1 instead of 1 [C19]"),
+ "R3-C02-a": ("revolve.py get_opt_0_table: row aliasing off by one (m >= lmax)", "DiskRevolve with RAM units >= n-1 and 0 < wd+rd < uf: DiskRevolve(5,4,uf=5,wd=1,rd=1) cost 52 vs 50 [C07]"),
+ "R3-C02-b": ("disk_revolve.py builder: fast path `wd+rd >= l*uf` goes memory-only", "expensive disk, 1 RAM unit, n large enough: DiskRevolve(13,1,wd=6,rd=6) cost 104 vs 80 [C07]"),
+ "R3-C03-a": ("hrevolve.py: last-read table filled in __init__ into a CLASS-level dict", "a second Revolve-family constructor between A's construction and A's iteration [C15]"),
+ "R3-C03-b": ("hrevolve.py DiskRevolve.__init__: 'fits in memory' shortcut off by one", "max_n == RAM units + 2 with a cheap disk: DiskRevolve(3,1,wd=0,rd=0) cost 9 vs 8 [C07]"),
+ "R3-C04-a": ("schedule.py finalize: branches merged, mutate before validate", "a refused finalize(k) on an online schedule leaves max_n = k [C10]"),
+ "R3-C04-b": ("schedule.py __eq__: NotImplemented style without the same-class test", "Copy(3,DISK,WORK) == Move(3,DISK,WORK), EndForward() == EndReverse() [C18]"),
+ "R3-C05-a": ("mixed.py _iterator: Copy of a re-used checkpoint names StorageType.DISK", "storage=RAM with a re-used restart checkpoint: Mixed(4,1,RAM) [C01]"),
+ "R3-C05-b": ("mixed.py __init__: storage validated with isinstance(storage, StorageType)", "storage=WORK or NONE is accepted and yields a complete stream [C17]"),
+ "R3-C06-a": ("multistage.py _iterator: storage look-up moved into the Copy branch only", "mixed split with two consecutive Moves of adjacent positions: Multistage(4,1,2) [C01]"),
+ "R3-C06-b": ("multistage.py optimal_extra_steps replaced by a closed form with an off-by-one repetition number", "n == C(s+t,s)+1: optimal_steps_binomial(7,2) returns 17 instead of 18 [C05]"),
+ "R3-C07-a": ("twolevel_binomial.py: reverse loop iterates one period per Forward emitted", "finalisation that overshoots by a whole period (late finalize): TwoLevel(3,1), two Forwards, finalize(3) [C02]"),
+ "R3-C07-b": ("twolevel_binomial.py: class-level checkpoint stack", "two TwoLevel objects, one standing mid-period [C15]"),
+ "R3-C08-a": ("basic_schedules.py SingleDisk: reverse loop driven by the forward cursor", "move_data=False, second pass emits a bare EndReverse [C09]"),
+ "R3-C08-b": ("hrevolve.py get_hopt_table: border uses rvect[k]/wvect[k]", "1 RAM unit, cheap disk read, particular n: HRevolve(6,1,1,wd=1,rd=0) cost 22 vs 21 [C07]"),
+
 }
 
 
